@@ -1871,6 +1871,30 @@ def split_known_unwraps(b, log):
         log.append("%s: %d unwrap / expect of a value built as Some or None on the way written as a match" % (b["path"], n))
 
 
+def _closure_local_of(b, o, depth=0):
+    """the local that holds the closure a call operand denotes, following copies, borrows and the captures of (spliced) closures"""
+    if depth > 10 or o["k"] not in ("move", "copy"):
+        return None
+    l, pr = o["p"]["l"], [e for e in o["p"]["pr"] if e != "deref"]
+    d = single_def(b, l)
+    if d is None or d[0] != "rv":
+        return None
+    rv = d[3]
+    if rv["k"] == "agg" and rv.get("ak") == "closure":
+        if not pr:
+            return l
+        if isinstance(pr[0], dict) and "f" in pr[0] and pr[0]["f"] < len(rv["ops"]):
+            inner = rv["ops"][pr[0]["f"]]
+            if inner["k"] in ("move", "copy"):
+                return _closure_local_of(b, {"k": "copy", "p": {"l": inner["p"]["l"], "pr": list(inner["p"]["pr"]) + pr[1:], "ty": ""}}, depth + 1)
+        return None
+    if rv["k"] == "use" and rv["o"]["k"] in ("move", "copy"):
+        return _closure_local_of(b, {"k": "copy", "p": {"l": rv["o"]["p"]["l"], "pr": list(rv["o"]["p"]["pr"]) + pr, "ty": ""}}, depth + 1)
+    if rv["k"] == "ref":
+        return _closure_local_of(b, {"k": "copy", "p": {"l": rv["p"]["l"], "pr": list(rv["p"]["pr"]) + pr, "ty": ""}}, depth + 1)
+    return None
+
+
 def inline_closure_calls(b, bodies, log):
     """`let f = |x| ..; f(a)`: the call of a closure that is in scope is the closure's body with the arguments put in"""
     used = set()
@@ -1885,11 +1909,15 @@ def inline_closure_calls(b, bodies, log):
         f = t["args"][0]
         if f["k"] not in ("move", "copy") or f["p"]["pr"]:
             continue
-        # the closure value: handed over itself, or borrowed just for the call
+        # the closure value: handed over itself, borrowed just for the call, or reached through the captures of the closure this code came from
         cl = f
         d = single_def(b, f["p"]["l"])
         if d and d[0] == "rv" and d[3]["k"] == "ref" and not d[3]["p"]["pr"]:
             cl = {"k": "copy", "p": copy.deepcopy(d[3]["p"])}
+        elif closure_of_operand(b, cl, bodies) is None:
+            cl_l = _closure_local_of(b, f)
+            if cl_l is not None:
+                cl = {"k": "copy", "p": P(cl_l, ty=b["locals"][cl_l]["ty"])}
         g = closure_of_operand(b, cl, bodies)
         if g is None or g is b:
             continue
@@ -2257,6 +2285,27 @@ def rewrite_idioms(b, log):
             n += 1
     if n:
         log.append("%s: %d single-character push(es) written as push_str" % (b["path"], n))
+    # write!(s, ..) / writeln!(s, ..) into a String  ==  s.push_str(&format!(..)), which cannot fail
+    w_ = 0
+    for bi in range(len(b["blocks"])):
+        blk = b["blocks"][bi]
+        t = blk["term"]
+        if t is None or t["k"] != "call" or blk.get("cleanup") or t.get("t") is None:
+            continue
+        fn = callee_of(t)
+        if fn is None or fn["path"] != "std::fmt::Write::write_fmt" or len(t["args"]) != 2 or (fn.get("gargs") or [""])[0] != "std::string::String":
+            continue
+        loc = blk["tloc"]
+        s_l = new_local(b, "std::string::String")
+        r_l = new_local(b, "&std::string::String")
+        ig = new_local(b, "()")
+        done_ = new_block(b, [assign(copy.deepcopy(t["dest"]), adt_agg("std::result::Result", "Ok", 0, [{"k": "const", "ty": "()", "disp": "()"}]), loc)], goto(t["t"]), loc)
+        push = new_block(b, [assign(P(r_l), {"k": "ref", "mut": False, "fake": False, "p": P(s_l, ty="std::string::String")}, loc)],
+                         call(fn_operand("std::string::String::push_str", [], impl_self="std::string::String"), [copy.deepcopy(t["args"][0]), mv(r_l)], P(ig), done_, loc), loc)
+        blk["term"] = call(fn_operand("std::fmt::format", []), [copy.deepcopy(t["args"][1])], P(s_l, ty="std::string::String"), push, loc)
+        w_ += 1
+    if w_:
+        log.append("%s: %d write!/writeln! into a String written as push_str(&format!(..))" % (b["path"], w_))
     # v.pop() on a list that nothing else looks at (bound by a pattern, popped once, dropped)  ==  v.last(), handed over by value
     k_ = 0
     for bi, blk in enumerate(b["blocks"]):
@@ -2541,6 +2590,37 @@ def devirtualise_choice(b, log):
 # ------------------------------------------------------------------ named constants
 
 
+def monomorphise_uniform_generics(data, log):
+    """a generic function of the crate all of whose calls (in this crate) pass the same type arguments is, for this program, the function with those
+    types: `fn slots(sizes: impl IntoIterator<Item = u16>)` called with `Vec<u16>` twice loops over a `vec::IntoIter<u16>`"""
+    bodies = {b["path"]: b for b in data["bodies"]}
+    uses = {}
+    for b in data["bodies"]:
+        for _bi, _t, fn in calls_of(b):
+            g = local_callee(fn, bodies)
+            if g is not None and g.get("generics") and g is not b:
+                uses.setdefault(g["path"], []).append(list(fn.get("gargs") or []))
+    n = 0
+    for path, lists in sorted(uses.items()):
+        g = bodies[path]
+        gen = list(g.get("generics") or [])
+        if not gen or any(len(l) != len(gen) for l in lists) or any(l != lists[0] for l in lists):
+            continue
+        args = lists[0]
+        # concrete arguments only (a caller that is generic itself hands on its own parameters)
+        if any(re.match(r"^[A-Z]\w*$", a) or a.startswith("impl ") or re.search(r"(?<![\w:])[A-Z]\b(?!\w|::)", a) for a in args):
+            continue
+        mapping = {k: v for k, v in zip(gen, args) if k != v and (re.match(r"^[A-Za-z_]\w*$", k) or k.startswith("impl "))}
+        if not mapping:
+            continue
+        instantiate(g, 0, 0, mapping)
+        resolve_trait_calls(g, 0, bodies)
+        g["generics"] = []
+        n += 1
+        log.append("%s: generic over %s, always called with %s: read with those types" % (path, ", ".join(gen), ", ".join(args)))
+    return n
+
+
 def explicit_known_variants(b, log):
     """`if a.is_some() { a } else { b }`: on the branch taken when `a.is_some()` holds, the value handed on is `Some(a's payload)` - said so, for the
     tests of the result that follow (the same fact `a.or(b)` states directly)"""
@@ -2763,6 +2843,9 @@ def resolve_named_consts(data, log):
 # ------------------------------------------------------------------ jump threading
 
 
+PLAIN_UNIT_VARIANTS = set()  # (enum path, variant index) of the crate's field-less variants whose discriminant value is the variant index
+
+
 def _simple_assigns(blk):
     return all(st["k"] == "assign" for st in blk["stmts"])
 
@@ -2894,7 +2977,8 @@ def thread_bool_jumps(b, log):
                             env_[l] = ("int", rv["o"]["int"])
                         elif rv["k"] == "use" and rv["o"]["k"] in ("move", "copy") and not rv["o"]["p"]["pr"] and rv["o"]["p"]["l"] in env_:
                             env_[l] = env_[rv["o"]["p"]["l"]]
-                        elif rv["k"] == "agg" and rv.get("ak") == "adt" and rv.get("adt") in ("std::option::Option", "std::result::Result", "std::ops::ControlFlow"):
+                        elif rv["k"] == "agg" and rv.get("ak") == "adt" and (rv.get("adt") in ("std::option::Option", "std::result::Result", "std::ops::ControlFlow")
+                                                                              or (not rv.get("ops") and (rv.get("adt"), rv.get("vi")) in PLAIN_UNIT_VARIANTS)):
                             env_[l] = ("variant", rv["vi"])
                         elif rv["k"] == "ref" and not rv["p"]["pr"] and rv["p"]["l"] in env_:
                             env_[l] = env_[rv["p"]["l"]]
@@ -2953,7 +3037,8 @@ def thread_bool_jumps(b, log):
                         elif rv["k"] == "use" and rv["o"]["k"] in ("move", "copy") and not rv["o"]["p"]["pr"] and rv["o"]["p"]["l"] in env:
                             k_, v, carriers = env[rv["o"]["p"]["l"]]
                             env[l] = (k_, v, carriers | {l})
-                        elif rv["k"] == "agg" and rv.get("ak") == "adt" and rv.get("adt") in ("std::option::Option", "std::result::Result", "std::ops::ControlFlow"):
+                        elif rv["k"] == "agg" and rv.get("ak") == "adt" and (rv.get("adt") in ("std::option::Option", "std::result::Result", "std::ops::ControlFlow")
+                                                                              or (not rv.get("ops") and (rv.get("adt"), rv.get("vi")) in PLAIN_UNIT_VARIANTS)):
                             env[l] = ("variant", rv["vi"], {l})
                         elif rv["k"] == "ref" and not rv["p"]["pr"] and rv["p"]["l"] in env:
                             k_, v, carriers = env[rv["p"]["l"]]
@@ -3208,8 +3293,43 @@ def prune_loops_over_nothing(b, log):
         blk["stmts"].append(assign(copy.deepcopy(t["dest"]), adt_agg("std::option::Option", "None", 0, []), blk["tloc"]))
         blk["term"] = goto(t["t"])
         n += 1
-    if n:
-        log.append("%s: %d loop(s) over a list that was just created empty removed" % (b["path"], n))
+    # `out.append(&mut Vec::new())` (the `None` alternative of `opt.map_or_else(Vec::new, |x| walk(x))` once it has its own copy of the append): nothing
+    m = 0
+    for bi, blk in enumerate(b["blocks"]):
+        t = blk["term"]
+        if t is None or t["k"] != "call" or blk.get("cleanup") or t.get("t") is None:
+            continue
+        fn = callee_of(t)
+        if fn is None or fn["path"] != "std::vec::Vec::<T, A>::append" or len(t["args"]) != 2:
+            continue
+        a = t["args"][1]
+        if a["k"] not in ("move", "copy") or a["p"]["pr"]:
+            continue
+        d = single_def(b, a["p"]["l"])
+        if not (d and d[0] == "rv" and d[3]["k"] == "ref" and d[3].get("mut") and not d[3]["p"]["pr"]):
+            continue
+        v = d[3]["p"]["l"]
+        dv = single_def(b, v)
+        if not (dv and dv[0] == "call" and (callee_of(dv[2]) or {}).get("path") in EMPTY_CTORS and not dv[2]["args"] and b["locals"][v]["ty"].startswith("std::vec::Vec<")):
+            continue
+        occ = 0
+        for blk2 in b["blocks"]:
+            if blk2.get("cleanup"):
+                continue
+            for st in blk2["stmts"]:
+                acc = set()
+                locals_in(st, acc)
+                occ += v in acc
+            if blk2["term"] is not None and blk2["term"]["k"] != "drop":
+                acc = set()
+                locals_in(blk2["term"], acc)
+                occ += v in acc
+        if occ != 2:  # its creation and the borrow for this append
+            continue
+        blk["term"] = goto(t["t"])
+        m += 1
+    if n or m:
+        log.append("%s: %d loop(s) over / %d append(s) of a list that was just created empty removed" % (b["path"], n, m))
 
 
 def drops_to_gotos(b):
@@ -3284,7 +3404,9 @@ def _unmerge_phi_joins(b, log):
             for x in region:
                 t_ = b["blocks"][x]["term"]
                 f_ = callee_of(t_) if t_ is not None and t_["k"] == "call" else None
-                if f_ is None or f_["path"] not in ("std::iter::IntoIterator::into_iter", "core::slice::<impl [T]>::iter", "std::iter::Extend::extend"):
+                # (.. or hands, as it is or converted with `into()`, to a function of the crate: `walk(targets, statement.into())`)
+                if f_ is None or not (f_["path"] in ("std::iter::IntoIterator::into_iter", "core::slice::<impl [T]>::iter", "std::iter::Extend::extend", "std::convert::Into::into", "std::vec::Vec::<T, A>::append")
+                                      or ((f_.get("local") or f_.get("resolved_local")) and f_.get("kind") != "Closure" and "solang_parser::pt::" in json.dumps(t_["args"]))):
                     continue
                 for a_ in t_["args"]:
                     if a_["k"] not in ("move", "copy"):
@@ -3302,6 +3424,46 @@ def _unmerge_phi_joins(b, log):
             cand = [l for l in cand if l in walked]
             if not cand:
                 continue
+            # when everything that is done with the merged value sits in the straight line that starts at the join, only that stretch is copied and the
+            # alternatives meet again right after it (`out.append(&mut walk(.., x.into()))` for each alternative's x, then the common rest once)
+            chain = [j]
+            while True:
+                nx = succs(b["blocks"][chain[-1]])
+                if len(nx) != 1 or nx[0] in chain or nx[0] not in region or len(preds.get(nx[0], [])) != 1 or b["blocks"][chain[-1]]["term"]["k"] not in ("goto", "call"):
+                    break
+                chain.append(nx[0])
+            tainted = set(cand)
+            last_use = -1
+            for k_, x in enumerate(chain):
+                blk_ = b["blocks"][x]
+                for st in blk_["stmts"]:
+                    acc = set()
+                    locals_in(st["rv"] if st["k"] == "assign" else st, acc)
+                    if st["k"] == "assign" and st["p"]["pr"]:
+                        locals_in(st["p"], acc)
+                    if acc & tainted:
+                        last_use = k_
+                        if st["k"] == "assign":
+                            tainted.add(st["p"]["l"])
+                t_ = blk_["term"]
+                acc = set()
+                if t_["k"] == "call":
+                    locals_in(t_["args"], acc)
+                    locals_in(t_.get("f"), acc)
+                else:
+                    locals_in(t_, acc)
+                if acc & tainted:
+                    last_use = k_
+                    if t_["k"] == "call" and (t_["dest"].get("ty") or b["locals"][t_["dest"]["l"]]["ty"]) not in ("()",):
+                        tainted.add(t_["dest"]["l"])
+            rest_uses = set()
+            for x in region:
+                if x in chain[:last_use + 1]:
+                    continue
+                locals_in(b["blocks"][x]["stmts"], rest_uses)
+                locals_in(b["blocks"][x]["term"], rest_uses)
+            if 0 <= last_use < len(chain) - 1 and not (rest_uses & tainted) and b["blocks"][chain[last_use]]["term"]["k"] in ("goto", "call"):
+                region = set(chain[:last_use + 1])
             # a loop head among the region's exits back to a block outside is fine (the `continue` of the enclosing loop); the region itself must not be
             # entered from elsewhere (dominance guarantees it)
             inside = set(region) | set(ps)
@@ -4008,6 +4170,7 @@ def preprocess(data, known=None, known_uses=None):
         ctype = {"bin": "bin", "executable": "bin", "lib": "lib", "rlib": "lib"}.get(str(data.get("crate_type")), str(data.get("crate_type")))
         radts = REF_ADTS.get(ctype)
         resolve_blanket_into(data, log)
+        monomorphise_uniform_generics(data, log)
         if radts:
             recognise_type_renames(data, radts, log)
             structs_as_tuples(data, radts, log)
@@ -4017,6 +4180,11 @@ def preprocess(data, known=None, known_uses=None):
     except Exception as e:
         log.append("rename recognition failed: %s" % e)
     bodies = {b["path"]: b for b in data["bodies"]}
+    for a_ in data.get("adts", []):
+        if a_.get("kind") == "enum":
+            for v_ in a_.get("variants", []):
+                if not v_.get("fields") and v_.get("discr") in (None, v_.get("vi")):
+                    PLAIN_UNIT_VARIANTS.add((a_["path"], v_.get("vi")))
     try:
         resolve_named_consts(data, log)
         if known is not None:
@@ -4060,7 +4228,8 @@ def preprocess(data, known=None, known_uses=None):
                           ("bool::then desugaring", lambda b_: desugar_bool_then(b_, bodies, log)),
                           ("retain desugaring", lambda b_: desugar_retain(b_, bodies, known_uses, log)),
                           ("Option combinator desugaring", lambda b_: desugar_option_combinators(b_, bodies, known_uses, log)),
-                          ("adaptor desugaring", lambda b_: desugar_body(b_, bodies, known_uses, log))):
+                          ("adaptor desugaring", lambda b_: desugar_body(b_, bodies, known_uses, log)),
+                          ("local closure calls", lambda b_: inline_closure_calls(b_, bodies, log))):
             r = guarded(what, fn_, b)
             if r:
                 spliced_closures |= r
@@ -4085,6 +4254,10 @@ def preprocess(data, known=None, known_uses=None):
                     r = guarded(what, fn_, b)
                     if r:
                         spliced_closures |= r
+                if b["path"] not in KNOWN_PHIJOIN and b["path"] not in KNOWN_ORPAT and b["path"] not in KNOWN_MATCHVAL:
+                    guarded("jump threading", thread_bool_jumps, b, log)
+                    guarded("match value joins", unmerge_phi_joins, b, log)
+                    guarded("loops over nothing", prune_loops_over_nothing, b, log)
     for b in data["bodies"]:
         if b.get("derived") or b["path"] in dropped:
             continue
